@@ -9,6 +9,7 @@ an integer payload and an ordered list of references to other objects.
 
     read i | mod i v | link i j | unlink i j | add i          object level
     wlink i j                                                  link through a persistent.wref.WeakRef
+    readcur i                                                  conn.readCurrent(obj) on an object new in the transaction
     commit | abort | sp | rb n | close | open | sync           transaction / connection level (sync = conn.sync())
     commitf rm before|after begin|commit|vote|finish           commit with a failing 2nd resource manager
     commitf store j | commitf vote                             commit with a storage fault (j-th store / vote)
@@ -358,6 +359,12 @@ class World:
         self.after_boundary()
         return 'ok tmp=%d' % self.tmp_left()
 
+    def op_readcur(self, i):
+        """Connection.readCurrent(obj) — only generated for objects that are new in the transaction, for which
+        it records nothing (a new object has no committed revision that could stop being current)"""
+        self.conn.readCurrent(self.objs[i])
+        return 'ok'
+
     def op_sync(self):
         """Connection.sync(): begins a new transaction, i.e. aborts the current one"""
         self.conn.sync()
@@ -451,6 +458,8 @@ class World:
                 r, extra = self.op_commit(t[1:])
             elif t[0] == 'abort':
                 r = self.op_abort()
+            elif t[0] == 'readcur':
+                r = self.op_readcur(int(t[1]))
             elif t[0] == 'sync':
                 r = self.op_sync()
             elif t[0] == 'sp':
@@ -724,6 +733,10 @@ class Oracle:
             if self.open:
                 self.boundary()
             return 'ok t=%d w=[%s] tmp=0' % (self.rank, ','.join(map(str, W)))
+        if k == 'readcur':
+            if self.member.get(int(t[1])) != 'n' or not self.open:
+                raise Tainted()         # (only generated for objects that are new in this transaction)
+            return 'ok'
         if k == 'sync':
             if not self.open:
                 raise Tainted()         # (sync of a closed connection is not generated)
@@ -1047,8 +1060,17 @@ def gen_scenario(rng, pid, kind):
             ops.insert(pos, rng.choice(['read %d' % i, 'mod %d %d' % (i, val()), 'peek %d' % i]))
         ops += ['read %d' % i for i in range(n)] + ['commit'] + ['peek %d' % i for i in range(n)]
         return dict(kind=kind, n=n, ops=ops)
-    t = rng.randrange(9)
-    if t == 8:      # S1, change x, S2, rollback S1, an equally long change of ANOTHER object of the same class
+    t = rng.randrange(10)
+    if t == 9:      # readCurrent on an object created after a savepoint, rollback, commit: nothing is left to check
+        ops = ['mod 0 %d' % val(), 'sp']
+        if rng.random() < 0.5:
+            ops += ['add %d' % a, 'readcur %d' % a]
+        else:
+            ops += ['link 0 %d' % a, 'sp', 'readcur %d' % a]
+        if rng.random() < 0.4:
+            ops += ['link %d %d' % (a, b), 'sp', 'readcur %d' % b]
+        ops += ['rb 0', 'mod 0 %d' % val(), rng.choice(['commit', 'commit', 'sp'])]
+    elif t == 8:      # S1, change x, S2, rollback S1, an equally long change of ANOTHER object of the same class
         #             (the temporary store is back at S2's position), S3, more changes, rollback S3
         x, y = rng.choice([(1, 4), (4, 1), (2, 5), (5, 2), (3, 6), (6, 3)])
         n = 7
